@@ -23,8 +23,34 @@ from ..ref import rulegrammar as RG
 NAN = float("nan")
 
 
+NUMBER = None  # when set (e.g. numpy.float32), every numeric argument of the constructors is given as that scalar type
+
+
+def num(x):
+    if NUMBER is None or isinstance(x, (bool, int, str)) or x is None:
+        return x
+    return NUMBER(x)
+
+
+def build_with_number(recipe: dict, number):
+    """The same engine with every numeric constructor argument (and rule weight) given as `number` scalars."""
+    global NUMBER
+    NUMBER = number
+    try:
+        engine = build(recipe)
+        for b, rb in zip(recipe["blocks"], engine.rule_blocks):
+            for r, rule in zip(b["rules"], rb.rules):
+                if r.get("weight") is not None:
+                    rule.weight = number(float(r["weight"]))
+        return engine
+    finally:
+        NUMBER = None
+
+
 def make_term(t: dict):
     cls = t["cls"]
+    if NUMBER is not None and "params" in t:
+        t = {**t, "params": [num(p) for p in t["params"]], "height": num(t.get("height", 1.0))}
     if cls == "Function":
         return fl.Function(t["name"], t["formula"], load=True)  # loaded before the engine exists (the engine re-links it)
     if cls == "Constant":
@@ -51,7 +77,7 @@ def make_activation(a):
     if a is None:
         return None
     name, *params = a
-    return getattr(fl, name)(*params)
+    return getattr(fl, name)(*[num(p) if isinstance(p, float) else p for p in params])
 
 
 def rule_text(r: dict) -> str:
@@ -83,16 +109,16 @@ def build(recipe: dict, flags_by_assignment: bool = False):
             make_norm, make_defuzzifier = saved
     inputs = [
         fl.InputVariable(
-            name=v["name"], description=v.get("description", ""), enabled=v.get("enabled", True), minimum=v["min"],
-            maximum=v["max"], lock_range=v.get("lock_range", False), terms=[make_term(t) for t in v["terms"]],
+            name=v["name"], description=v.get("description", ""), enabled=v.get("enabled", True), minimum=num(v["min"]),
+            maximum=num(v["max"]), lock_range=v.get("lock_range", False), terms=[make_term(t) for t in v["terms"]],
         )
         for v in recipe["inputs"]
     ]
     outputs = [
         fl.OutputVariable(
-            name=v["name"], description=v.get("description", ""), enabled=v.get("enabled", True), minimum=v["min"],
-            maximum=v["max"], lock_range=v.get("lock_range", False), lock_previous=v.get("lock_previous", False),
-            default_value=v.get("default", NAN), aggregation=make_norm(v.get("aggregation")),
+            name=v["name"], description=v.get("description", ""), enabled=v.get("enabled", True), minimum=num(v["min"]),
+            maximum=num(v["max"]), lock_range=v.get("lock_range", False), lock_previous=v.get("lock_previous", False),
+            default_value=num(v.get("default", NAN)), aggregation=make_norm(v.get("aggregation")),
             defuzzifier=make_defuzzifier(v.get("defuzzifier")), terms=[make_term(t) for t in v["terms"]],
         )
         for v in recipe["outputs"]
